@@ -362,7 +362,7 @@ fn set_token_amount(w: &mut World, account: &Pubkey, amount: u64) {
 
 fn instruction_shard(args: &Args, shard: u64, m: &mut Monitor) {
     let mut rng = Rng::derive(args.seed, shard, 3232);
-    let iters = args.scale(70, 300);
+    let iters = args.scale(70, 240);
     let mut w = World::bootstrap_store();
     w.svm.keep_logs = true;
     w.bootstrap_oracle();
@@ -648,7 +648,7 @@ pub fn run(args: &Args) -> Option<i32> {
     mon.assume("state injection: Order::{builder, builder_fee_factor, builder_fee_amount} (and sometimes the escrow balance) are written into real order accounts because no instruction of the pinned tree can record a builder fee (execution passes factor 0; set_builder_fee does not exist yet)");
     mon.assume("fee value = the program's 20-decimal fixed-point product floor(size*factor/1e20); the amount is that value divided by the minimum unit price, rounded up");
     let direct_shards = args.scale(32, 128);
-    let direct_cases = args.scale(120_000, 1_500_000);
+    let direct_cases = args.scale(120_000, 320_000);
     let ix_shards = args.scale(32, 96);
     let quiet = hostsvm::QuietStdout::new();
     run_shards(&mut mon, args.threads, direct_shards + ix_shards, |shard, m| {
